@@ -197,7 +197,25 @@ def generate(rng, tier):
 # ---------------------------------------------------------------- implementation runner
 
 def new_state():
-    return dict(store=None)
+    return dict(store=None, mode=None, frame=None)
+
+
+def _version(state, pairs, line):
+    """the object handed to Bi: a fresh Series, or - on every third history - a one-column DataFrame; a publisher that revises
+    its data keeps ONE frame object, updates it in place and publishes the same object again (same index), which is how
+    an aliasing slip in Bi (stamping the caller's frame) becomes visible"""
+    import zlib
+    if state['mode'] is None:
+        state['mode'] = 'frame' if zlib.crc32(line.encode()) % 3 == 0 else 'series'
+    s = _series(pairs)
+    if state['mode'] == 'series':
+        return s
+    f = state['frame']
+    if f is not None and len(f.index) == len(s.index) and (f.index == s.index).all():
+        f['x'] = s.values                      # the same object, revised in place
+        return f
+    state['frame'] = pd.DataFrame({'x': s.values}, index=s.index)
+    return state['frame']
 
 
 def _series(pairs):
@@ -225,6 +243,8 @@ def _enc_time(t):
 
 
 def enc_series(r):
+    if isinstance(r, pd.DataFrame) and list(r.columns) == ['x']:
+        r = r['x']
     if not isinstance(r, pd.Series):
         raise proto.Unencodable('bi_read returned %s' % type(r).__name__)
     return '(L' + ''.join(' (T %s %s)' % (_enc_time(t), _enc_val(v)) for t, v in zip(r.index, r.values)) + ')'
@@ -232,6 +252,8 @@ def enc_series(r):
 
 def enc_store(df):
     from pyg_base._bitemporal import _updated, _series as col
+    if col not in df.columns and 'x' in df.columns:
+        col = 'x'
     return '(L' + ''.join(' (T %s %s %s)' % (_enc_time(t), _enc_time(u), _enc_val(v))
                           for t, u, v in zip(df.index, df[_updated].values, df[col].values)) + ')'
 
@@ -241,7 +263,7 @@ def run_line(state, sx):
     op, args = sx[1], sx[2:]
     if op == 'merge':
         st = proto.dec(args[0])
-        state['store'] = bi_merge(state['store'], Bi(_series(_dec_ts(args[1])), st))
+        state['store'] = bi_merge(state['store'], Bi(_version(state, _dec_ts(args[1]), proto.render(sx)), st))
         return 'ok ' + enc_store(state['store'])
     if op == 'mergelist':
         news = [Bi(_series(_dec_ts(item[2])), proto.dec(item[1])) for item in args[0][1:]]
